@@ -24,6 +24,9 @@ RULE = (
     "join(alias, rel) / join(alias, onclause); inner or outer; second join from root or from the first joined entity), select list of 1-3 entities/columns, "
     "WHERE tree (AND/OR/NOT) over column predicates and relationship leaves any()/has() (criterion, kwargs, of_type), ==None/!=None, ==obj/!=obj, contains(obj), "
     "correlated count subquery, explicit exists(), IN (subquery); DISTINCT; total ORDER BY; LIMIT/OFFSET. "
+    "rows/sti (about a quarter of the rows cases): 2-3 entities of a single-table hierarchy Employee <- Engineer, Manager <- Boss over one table (at most one un-aliased), "
+    "each later entity linked to an earlier one by boss_id = id either as a plain FROM element in WHERE, by join(alias, onclause) or by join(src.boss.of_type(alias)), inner/outer; "
+    "column / entity / mixed rows; twin carries the explicit discriminator predicate for EACH entity (in the ON clause for joined ones). "
     "compound: UNION / UNION ALL / subquery mapped with aliased(Entity, subq), from_statement(union | text), GROUP BY entity or column with count/max/min + HAVING. "
     "Non-trivial: the query uses an aliased entity, a relationship comparator or a subquery, and the data has a NULL FK or duplicate values; "
     "distinct = canonical JSON of the case"
@@ -36,7 +39,8 @@ ASSUMPTIONS = [
     "positive many-to-many contains() is generated only in top-level AND position (documented restriction); elsewhere the case uses any(Target.id == pk)",
     "ORDER BY is total (PKs of every FROM entity appended; with DISTINCT / GROUP BY every selected item), so results compare as lists; from_statement results compare as multisets",
     "legacy Query.all() de-duplicates rows that contain an entity (documented); Query.count() counts SQL rows; Query.first() is compared only when LIMIT is not 0",
-    "not covered: inheritance/of_type on subclasses (C42), with_parent, composite PKs, lateral, CTEs, window functions",
+    "single-table inheritance: the discriminator criterion of a join() target belongs to the ON clause (so outer joins keep unmatched left rows), that of plain FROM entities to WHERE",
+    "not covered: joined/concrete inheritance and with_polymorphic in queries (C42), with_parent, composite PKs, lateral, CTEs, window functions",
 ]
 
 ROOTS = ["Parent", "Child", "Grandchild", "Tag", "Node"]
@@ -634,6 +638,8 @@ def check_rows(case, ctx):
     from sqlalchemy import func, select
     from sqlalchemy.orm import Session
 
+    if case.get("sti"):
+        return check_sti(case, ctx)
     data = case["data"]
     model = oq.Model(data)
     nq = norm_rows_query(case["q"], model)
@@ -802,10 +808,291 @@ def _rows_cases(draw):
     return {"data": data, "q": q}
 
 
+# ------------------------------------------------------------------ single-table inheritance shapes (inside sub-check "rows")
+STI_CLASSES = ["Engineer", "Manager", "Employee", "Boss"]
+EMP_NONPK = ["type", "boss_id", "name", "x"]
+
+
+def norm_sti(q):
+    """2-3 entities over the one `employee` table; at most one un-aliased (all share the table); every later entity is
+    linked to an earlier one by boss_id = id, either in WHERE (plain FROM elements), by join(target, onclause) or by
+    join(src.boss.of_type(target))"""
+    ents, unaliased_used = [], False
+    for ci, al in (q.get("ents") or [])[:3]:
+        cls = STI_CLASSES[ci % len(STI_CLASSES)]
+        al = bool(al) or unaliased_used
+        if not al:
+            unaliased_used = True
+        ents.append([cls, al])
+    while len(ents) < 2:
+        ents.append([ents[0][0] if ents else "Engineer", True])
+    n = len(ents)
+    links = []
+    for i in range(1, n):
+        raw = (q.get("links") or [[0, False, 0, False]] * 3)[(i - 1) % max(len(q.get("links") or [1]), 1)] if q.get("links") else [0, False, 0, False]
+        style = ["where", "join", "rel"][raw[0] % 3]
+        src = raw[2] % i
+        flip = bool(raw[3]) and style != "rel"  # rel: target is the boss of src
+        links.append({"style": style, "outer": bool(raw[1]) and style != "where", "src": src, "flip": flip})
+    # joins must precede where-linked entities only in the sense that a join's source is already in the FROM chain:
+    # a join whose source is a where-linked entity is rewritten as where-linked too
+    in_chain = {0}
+    for i, l in enumerate(links, start=1):
+        if l["style"] != "where":
+            if l["src"] in in_chain:
+                in_chain.add(i)
+            else:
+                l["style"], l["outer"] = "where", False
+    sel = []
+    for it in (q.get("sel") or [])[:3]:
+        t = it[1] % n
+        item = ["e", t] if it[0] == "e" else ["c", t, (["id"] + EMP_NONPK)[it[2] % 5]]
+        if item not in sel:
+            sel.append(item)
+    if not sel:
+        sel = [["c", 0, "id"], ["c", 1, "id"]]
+    where = _norm_sti_where(q.get("where"), n)
+    distinct = bool(q.get("distinct"))
+    if distinct:
+        order = [[it[1], "id", False] if it[0] == "e" else [it[1], it[2], False] for it in sel]
+    else:
+        order = [[t % n, (["id"] + EMP_NONPK)[c % 5], bool(d)] for t, c, d in (q.get("order") or [])] + [[t, "id", False] for t in range(n)]
+    return {"ents": ents, "links": links, "sel": sel, "where": where, "distinct": distinct, "order": order, "limit": q.get("limit"), "offset": q.get("offset")}
+
+
+def _norm_sti_where(e, n):
+    if e is None:
+        return None
+    if e[0] in ("and", "or"):
+        return [e[0], _norm_sti_where(e[1], n), _norm_sti_where(e[2], n)]
+    if e[0] in ("not", "case"):
+        return [e[0], _norm_sti_where(e[1], n)]
+    k, t = e[0], e[1] % n
+    if k == "colcmp":
+        ints = ["id", "boss_id", "x"]
+        return ["colcmp", t, ints[e[2] % 3], e[3], e[4] % n, ints[e[5] % 3]]
+    col = ["name", "x", "boss_id", "id", "type"][e[2] % 5]
+    is_str = col in ("name", "type")
+    if k == "cmp":
+        sv = e[4] if col == "name" else ["eng", "mgr", "emp", "boss"][len(e[4]) % 4]
+        return ["cmp", t, col, e[3], sv if is_str else e[5]]
+    if k == "isnull":
+        return ["isnull", t, col, bool(e[3])]
+    if k == "in":
+        return ["in", t, col, list(e[3]) if col == "name" else (["eng", "boss"] if is_str else list(e[4]))]
+    return ["like", t, col, e[3]] if is_str else ["isnull", t, col, True]
+
+
+def _sti_link(a_src, a_tgt, flip):
+    """target is the boss of src (src.boss_id = target.id), or the other way round when flipped"""
+    return (a_tgt.boss_id == a_src.id) if flip else (a_src.boss_id == a_tgt.id)
+
+
+def build_orm_sti(nq, legacy_session=None):
+    from sqlalchemy import select
+    from sqlalchemy.orm import aliased
+
+    fam = oq.family()
+    ents = [aliased(fam.classes[c]) if al else fam.classes[c] for c, al in nq["ents"]]
+    items = [ents[it[1]] if it[0] == "e" else getattr(ents[it[1]], it[2]) for it in nq["sel"]]
+    stmt = legacy_session.query(*items) if legacy_session is not None else select(*items)
+    if any(l["style"] != "where" for l in nq["links"]):
+        stmt = stmt.select_from(ents[0])
+    wheres = []
+    for i, l in enumerate(nq["links"], start=1):
+        S, T = ents[l["src"]], ents[i]
+        if l["style"] == "where":
+            wheres.append(_sti_link(S, T, l["flip"]))
+        elif l["style"] == "join":
+            stmt = stmt.join(T, _sti_link(S, T, l["flip"]), isouter=l["outer"])
+        else:
+            stmt = stmt.join(S.boss.of_type(T), isouter=l["outer"])
+    for w in wheres:  # each link is its own top-level WHERE criterion
+        stmt = stmt.filter(w) if legacy_session is not None else stmt.where(w)
+    if nq["where"] is not None:
+        w = oq.expr_sa(nq["where"], lambda t, name: getattr(ents[t], name))
+        stmt = stmt.filter(w) if legacy_session is not None else stmt.where(w)
+    if nq["distinct"]:
+        stmt = stmt.distinct()
+    stmt = stmt.order_by(*[(getattr(ents[t], c).desc() if d else getattr(ents[t], c).asc()) for t, c, d in nq["order"]])
+    if nq["limit"] is not None:
+        stmt = stmt.limit(nq["limit"])
+    if nq["offset"] is not None:
+        stmt = stmt.offset(nq["offset"])
+    return stmt
+
+
+def build_core_sti(nq):
+    """twin on aliased Tables with the explicit discriminator predicate on EACH entity (in the ON clause for joined ones)"""
+    from sqlalchemy import and_, select, true
+
+    tbl = oq.family().tables["employee"]
+    froms = [tbl.alias(f"s{i}") for i in range(len(nq["ents"]))]
+
+    def disc(i):
+        vals = oq.EMP_DISC[nq["ents"][i][0]]
+        return froms[i].c.type.in_(vals) if vals is not None else None
+
+    frm, joined = froms[0], False
+    wheres = [] if disc(0) is None else [disc(0)]
+    for i, l in enumerate(nq["links"], start=1):
+        S, T = froms[l["src"]], froms[i]
+        link = (T.c.boss_id == S.c.id) if l["flip"] else (S.c.boss_id == T.c.id)
+        d = disc(i)
+        if l["style"] == "where":
+            wheres.append(link)
+            if d is not None:
+                wheres.append(d)
+        else:
+            frm = frm.join(T, link if d is None else and_(link, d), isouter=l["outer"])
+            joined = True
+    cols, shape = [], []
+    for it in nq["sel"]:
+        if it[0] == "e":
+            shape.append(("e", None, len(oq.EMP_COLS)))
+            cols.extend(froms[it[1]].c[c] for c in oq.EMP_COLS)
+        else:
+            shape.append(("c", None, 1))
+            cols.append(froms[it[1]].c[it[2]])
+    stmt = select(*cols)
+    if joined:
+        stmt = stmt.select_from(frm)
+    for w in wheres:
+        stmt = stmt.where(w)
+    if nq["where"] is not None:
+        stmt = stmt.where(oq.expr_sa(nq["where"], lambda t, name: froms[t].c[name]))
+    if nq["distinct"]:
+        stmt = stmt.distinct()
+    stmt = stmt.order_by(*[(froms[t].c[c].desc() if d else froms[t].c[c].asc()) for t, c, d in nq["order"]])
+    if nq["limit"] is not None:
+        stmt = stmt.limit(nq["limit"])
+    if nq["offset"] is not None:
+        stmt = stmt.offset(nq["offset"])
+    return stmt, shape
+
+
+def _sti_shape_rows(raw, shape):
+    out = []
+    for r in raw:
+        i, row = 0, []
+        for kind, _, n in shape:
+            if kind == "e":
+                vals = list(r[i:i + n])
+                row.append(None if vals[0] is None else [oq.EMP_TYPE_CLS[vals[1]], vals[0], vals])
+            else:
+                row.append(r[i])
+            i += n
+        out.append(row)
+    return out
+
+
+def _sti_canon(rows, sel, single=False):
+    out = []
+    for r in rows:
+        if single:
+            r = (r,)
+        row = []
+        for it, v in zip(sel, r):
+            if it[0] == "e":
+                row.append(None if v is None else [type(v).__name__, v.id, [getattr(v, c) for c in oq.EMP_COLS]])
+            else:
+                row.append(v)
+        out.append(row)
+    return out
+
+
+def check_sti(case, ctx):
+    from sqlalchemy import func, select
+    from sqlalchemy.orm import Session
+
+    nq = norm_sti(case["q"])
+    emp = case["emp"]
+    classes = {"sti"}
+    ecls = [c for c, _ in nq["ents"]]
+    sub_ents = [c for c in ecls if c != "Employee"]
+    same_twice = any(sub_ents.count(c) >= 2 for c in set(sub_ents))
+    if same_twice:
+        classes.add("sti:same-subclass-twice")
+    if len(set(sub_ents)) >= 2:
+        classes.add("sti:sibling-subclasses")
+    for l in nq["links"]:
+        classes.add(f"sti:link-{l['style']}{':outer' if l['outer'] else ''}")
+    if same_twice and any(l["style"] == "where" for l in nq["links"]):
+        classes.add("sti:same-subclass-twice:where-linked")
+    classes.add("sti:sel:" + "+".join(it[0] for it in nq["sel"]))
+    if any(not al for _, al in nq["ents"]):
+        classes.add("sti:one-unaliased")
+    feats = "sti+" + "+".join(sorted(c.split(":", 1)[1] for c in classes if c.startswith("sti:") and not c.startswith("sti:sel")))
+    eng = oq.load_engine({"employee": emp})
+    try:
+        core, shape = build_core_sti(nq)
+        with eng.connect() as conn:
+            exp = _sti_shape_rows(conn.execute(core).fetchall(), shape)
+        classes.add("sti:rows:0" if not exp else "sti:rows:1+")
+        ctx.note(case, len(sub_ents) >= 1, classes=sorted(classes))
+        single = len(nq["sel"]) == 1 and nq["sel"][0][0] == "e"
+        has_entity = any(it[0] == "e" for it in nq["sel"])
+        with Session(eng) as s:
+            stmt = build_orm_sti(nq)
+            got = _sti_canon(s.execute(stmt).all(), nq["sel"])
+            if got != exp:
+                raise Violation(f"C41/rows/{_diff_kind(exp, got)}/{feats}", f"ORM rows differ from Core twin; orm={_sql(stmt)} core={_sql(core)}", observed=got, expected=exp)
+            cnt = s.scalar(select(func.count()).select_from(stmt.subquery()))
+            if cnt != len(exp):
+                raise Violation(f"C41/count-over-subquery/{feats}", f"count(*) over the ORM statement = {cnt}, rows = {len(exp)}; {_sql(stmt)}", observed=cnt, expected=len(exp))
+            if not (nq["distinct"] and nq["offset"] is not None):
+                ex = s.scalar(select(stmt.exists()))
+                if bool(ex) != bool(exp):
+                    raise Violation(f"C41/exists/{feats}", f"EXISTS(stmt) = {ex}, rows = {len(exp)}; {_sql(stmt)}", observed=ex, expected=bool(exp))
+            s.rollback()
+        with Session(eng) as s:
+            qy = build_orm_sti(nq, legacy_session=s)
+            got_all = _sti_canon(qy.all(), nq["sel"], single=single)
+            exp_all = dedupe_rows(exp) if has_entity else exp
+            if got_all != exp_all:
+                raise Violation(f"C41/legacy-all/{_diff_kind(exp_all, got_all)}/{feats}", f"Query.all() differs from Core twin; {_sql(qy.statement)}", observed=got_all, expected=exp_all)
+            c = qy.count()
+            if c != len(exp):
+                raise Violation(f"C41/legacy-count/{feats}", f"Query.count() = {c}, SQL rows = {len(exp)}", observed=c, expected=len(exp))
+            s.rollback()
+    finally:
+        eng.dispose()
+
+
+@st.composite
+def _sti_cases(draw):
+    n = draw(st.sampled_from([12, 10, 14, 8, 16, 6, 3]))
+    emp = []
+    for i in range(n):
+        code = draw(st.integers(0, 8 * 6 * 5 - 1))
+        typ = ["eng", "mgr", "eng", "mgr", "boss", "emp", "eng", "mgr"][(code + i) % 8]  # scattered even when Hypothesis draws small numbers
+        name, x = oq.NAMES[code // 8 % 6], oq.XS[code // 48 % 5]
+        k = draw(st.integers(0, n))
+        k = (k * 5 + i * 3 + 1) % (n + 1)
+        emp.append([i + 1, typ, None if k == 0 else k, name, x])
+    q = {
+        "ents": draw(st.lists(st.tuples(st.sampled_from([0, 0, 1, 2, 0, 3]), st.sampled_from([True, True, False])).map(list), min_size=2, max_size=3)),
+        "links": draw(st.lists(st.tuples(st.sampled_from([0, 1, 0, 2]), st.booleans(), st.integers(0, 1), st.booleans()).map(list), min_size=2, max_size=2)),
+        "sel": draw(st.lists(st.one_of(st.tuples(st.just("c"), st.integers(0, 2), st.sampled_from([0, 0, 3, 4, 1])).map(list), st.tuples(st.just("e"), st.integers(0, 2)).map(list)),
+                             min_size=0, max_size=3)),
+        "where": draw(st.one_of(st.none(), st.none(), _STI_WHERE)),
+        "distinct": draw(st.sampled_from([False, False, True])),
+        "order": draw(_ORDER),
+        "limit": draw(st.sampled_from([None, None, None, 3, 6, 1, 0])),
+        "offset": draw(st.sampled_from([None, None, None, 1, 0, 2])),
+    }
+    return {"sti": True, "emp": emp, "q": q}
+
+
+_STI_LEAF = st.one_of(_basic_leaf(2), _case_leaf(2))
+_STI_WHERE = st.recursive(_STI_LEAF, lambda ch: st.one_of(st.tuples(st.sampled_from(["or", "and"]), ch, ch).map(list), ch.map(lambda e: ["not", e])), max_leaves=3)
+
+
+
 def subs(tier):
     from checks import _c41_compound as cc
 
     return [
-        Generated("rows", check_rows, strategy=_rows_cases(), quick=1600, thorough=40000, budget_s_quick=22.0),
+        Generated("rows", check_rows, strategy=st.one_of(_rows_cases(), _sti_cases(), _rows_cases(), _rows_cases()), quick=1600, thorough=40000, budget_s_quick=22.0),
         Generated("compound", cc.check_compound, strategy=cc.cases(), quick=800, thorough=20000, budget_s_quick=15.0),
     ]
